@@ -15,6 +15,7 @@ EXPLANATION = (
     "the load (in run() before from_raw, and inside from_raw) is classified into the closed set {no/unknown extension, debugger attached, "
     "I/O error, odd length, empty, does not fit below 0x10000} - any other refusal rejects a loadable file; both sources of a run converge "
     "on the same from_raw. R5 (PANIC): closed panic ledger of the object-file path of run() and of from_raw."
+    ' R3 also accepts the staged form (pairs converted when stored, written by a drain loop) and the closure form of the word loop. R4 also requires the parity test to read the length of the buffer that is paired into words.'
 )
 NOT_DECIDED = "behavioural equality of running the file vs. the source beyond R1-R4 and C03"
 
